@@ -829,8 +829,15 @@ impl<'a, T: 'a + IO> Interpreter<'a, T> {
                 return Err(RuntimeError(line, file_name, err_m));
             },
             "_স্ট্রিং-স্প্লিট" => {
-                match BuiltInFunctionList::_string_split(evaluated_arguments, &mut self.lists) {
-                    Ok(result_data) => Ok(result_data),
+                match BuiltInFunctionList::_string_split(evaluated_arguments) {
+                    Ok(splitted_strings) => {
+                        // Converting vec<string> to vec<datatype>
+                        let splitted_strings = splitted_strings.iter()
+                            .map(|s| DataType::String(s.clone())).collect();
+
+                        let pakhi_list_data = self.create_new_list_datatype(splitted_strings);
+                        return Ok(pakhi_list_data);
+                    },
                     Err(err) => {
                         let (line, file_name) = self.extract_err_meta_stmt(self.current)?;
                         return Err(RuntimeError(line, file_name, err));
